@@ -1007,7 +1007,7 @@ class Interp:
                 return
             if isinstance(t, ast.Subscript) and isinstance(t.value, ast.Name) and t.value.id in fr.env \
                     and fr.env[t.value.id][0] not in ('sym', 'attr', 'bvar', 'idx') and not isinstance(t.slice, ast.Slice):
-                self.accumulate(t.value.id, 'addidx' if op == 'Add' else op + 'idx', self.ex(t.slice, fr), v, fr, s)
+                self.accumulate(t.value.id, {'Add': 'addidx', 'Sub': 'subidx'}.get(op, op + 'idx'), self.ex(t.slice, fr), v, fr, s)
                 return
             tt = self.target_term(t, fr)
             if tt in self.lp_problems and op == 'Add':
@@ -1144,7 +1144,7 @@ class Interp:
             fr.env[name] = cat(cur, ('list', (val,)))
         elif op == 'extend':
             fr.env[name] = cat(cur, val)
-        elif op in ('setidx', 'addidx', 'appendidx', 'extendidx', 'setslice', 'setadd', 'setupdate'):
+        elif op in ('setidx', 'addidx', 'subidx', 'appendidx', 'extendidx', 'setslice', 'setadd', 'setupdate'):
             fr.env[name] = ('upd', cur, op, index, val)
         else:
             fr.env[name] = simp_top(BIN(op, cur, val))
